@@ -1,5 +1,4 @@
-import PsiProofs.Helper.C08_Superpose
-import PsiProofs.Helper.C16_DftThms
+import PsiProofs.Helper.C08_Lemmas
 /-!
 # C08 — stimuli have the requested calibrated level; level and polarity scale exactly
 
@@ -24,10 +23,6 @@ theorem tone_level_linear (c : Cal ℝ) (f L d x : ℝ) (h : getSf c f L 0 = .va
   · subst hx; simp only [getSf, hS, Res.map_val, sfOf_add_level]
   · intro pol fs ph off j; simp only [tone]; ring
 
-theorem samPart_scale (g pol sfi fs fi phi : ℝ) (off j : ℕ) :
-    samPart pol (g * sfi) fs fi phi off j = g * samPart pol sfi fs fi phi off j := by
-  simp only [samPart]; ring
-
 /-- `sam_tone`: the three components' scale factors all carry the factor `10^(d/20)`, hence every sample does. -/
 theorem samTone_level_linear (g pol sfl sfc sfu eq fs fc fm phl phc phu : ℝ) (off j : ℕ) :
     samTone pol (g * sfl) (g * sfc) (g * sfu) eq fs fc fm phl phc phu off j
@@ -41,9 +36,6 @@ theorem scaled_level_linear (g pol sf : ℝ) (proto : List ℝ) :
     scaled pol (g * sf) proto = (scaled pol sf proto).map (g * ·) := by
   simp only [scaled, List.map_map]
   apply List.map_congr_left; intro p _; simp only [Function.comp]; ring
-
-theorem uniform_scale (g low high u : ℝ) : uniform (g * low) (g * high) u = g * uniform low high u := by
-  simp only [uniform]; ring
 
 theorem bbn_bounds_scale (g sf : ℝ) : bbnLow (g * sf) = g * bbnLow sf ∧ bbnHigh (g * sf) = g * bbnHigh sf := by
   constructor <;> simp only [bbnLow, bbnHigh] <;> ring
@@ -74,21 +66,6 @@ theorem filtStim_level_linear_zero (g polIn polOut low high b0 : ℝ) (bt atl : 
   rwa [zeroState_scale] at this
 
 /-! ### a state that does not scale (BandlimitedNoiseFactory as it is) -/
-
-theorem ladd_split (g : ℝ) (l : List ℝ) : ladd (l.map (g * ·)) (l.map ((1 - g) * ·)) = l := by
-  induction l with
-  | nil => rfl
-  | cons a t ih =>
-    simp only [ladd, List.map_cons, List.zipWith_cons_cons] at ih ⊢
-    rw [ih]; congr 1; ring
-
-theorem ladd_zero_input (g : ℝ) (x : List ℝ) :
-    ladd (x.map (g * ·)) ((x.map fun _ => (0 : ℝ)).map ((1 - g) * ·)) = x.map (g * ·) := by
-  induction x with
-  | nil => rfl
-  | cons a t ih =>
-    simp only [ladd, List.map_cons, List.zipWith_cons_cons] at ih ⊢
-    rw [ih]; congr 1; ring
 
 /-- the response of the filter to its initial state alone (zero input), as it appears among the returned samples -/
 noncomputable def zeroInputResponse (polOut b0 : ℝ) (bt atl z0 : List ℝ) (discard : ℕ) (u : List ℝ) : List ℝ :=
@@ -131,10 +108,6 @@ variable {α : Type} [TrigField α] [SignSymm α]
 theorem tone_polarity (sf fs f ph : α) (off j : ℕ) :
     tone (-(nat 1)) sf fs f ph off j = -(tone (nat 1) sf fs f ph off j) := by
   simp only [tone, SignSymm.neg_mul]
-
-theorem samPart_polarity (sfi fs fi phi : α) (off j : ℕ) :
-    samPart (-(nat 1)) sfi fs fi phi off j = -(samPart (nat 1) sfi fs fi phi off j) := by
-  simp only [samPart, SignSymm.neg_mul]
 
 theorem samTone_polarity (sfl sfc sfu eq fs fc fm phl phc phu : α) (off j : ℕ) :
     samTone (-(nat 1)) sfl sfc sfu eq fs fc fm phl phc phu off j
@@ -181,24 +154,6 @@ theorem filtStim_polarity_out (polIn low high b0 : α) (bt atl z0 : List α) (di
 end Polarity
 
 /-! ## calibrated level of a tone -/
-
-/-- (C07 `getDb_getSf`, restated here so that this file does not import another property file) -/
-theorem getDb_getSf_C08 (c : Cal ℝ) (f L v : ℝ) (h : getSf c f L 0 = .val v) : getDb c f v = .val L := by
-  obtain ⟨S, hS, hv⟩ := Res.map_eq_val h
-  subst hv
-  simp only [getDb, hS, Res.map_val]
-  congr 1
-  have := db1_sfOf S L 0
-  linarith
-
-
-/-- `stim.tone` at polarity +1, offset 0 and a whole-cycle frequency `f = k·fs/n` is the sinusoid of RMS amplitude `sf`. -/
-theorem tone_eq_toneSig (n k : ℕ) (sf fs ph : ℝ) (hfs : fs ≠ 0) (hn : 0 < n) (j : ℕ) :
-    tone (nat 1) sf fs (k * fs / n) ph 0 j = toneSig n k sf ph j := by
-  rw [toneSig_eq]
-  simp only [tone, nat_real, sqrt_real, cos_real, pi_real, Nat.cast_one, Nat.cast_ofNat, Nat.add_zero, one_mul]
-  rw [toneConv_angle n k j fs hfs hn]
-  ring
 
 /-- **A tone requested at level `L` and frequency `f` through any calibration has RMS equal to the calibration's
 scale factor for `(f, L)`, so that measuring it back through the same calibration reads `L`** (whole cycles). -/
